@@ -24,6 +24,8 @@ def jobs():
         _JOBS = []
         from . import jobs_keyfile
         jobs_keyfile.register(_JOBS)
+        from . import jobs_parser
+        jobs_parser.register(_JOBS)
         from . import jobs_rfwc
         jobs_rfwc.register(_JOBS)
         names = [j.name for j in _JOBS]
@@ -82,3 +84,44 @@ prop("C16", "proof",
      "exact post-state. Call-graph fact: no other path into the parser.",
      "Trusted: lstat reports the truth about the file; the kernel's notion of owner/group/symlink.",
      "CBMC function contracts (dfcc), loop-free, full-domain symbolic stat results", "6 C16")
+PARSER_NOTE = ("Bounded: the line under test is every byte string up to the stated N (8-11 bytes) in a finite, "
+               "listed catalogue of concrete context lines (DESIGN.md 6 C02); longer lines, other contexts and "
+               "files as a whole are not covered. The parser is NOT under dfcc (write-set instrumentation runs "
+               "out of memory); its contract is asserted by a wrapper, no frame is checked. Trusted: "
+               "stubs/stdio_real.c (getline/fopen/asprintf/snprintf/strndup models), CBMC's string library "
+               "models, C locale; goto-cc drops __attribute__((cleanup)).")
+prop("C02", "model_checking",
+     "The real parser read_file() is symbolically executed by CBMC on scenarios: concrete context lines from a "
+     "listed catalogue, ONE line under test whose bytes are fully symbolic and constrained only to the "
+     "conventional grammar by a reference recogniser written from DESIGN.md 5.1, optional follow-up entry. The "
+     "asserted contract: exactly one new entry with the recogniser's key/value/quote flag/section/line/comments "
+     "(or the header's / continuation's / blank line's effect) and every other entry unchanged compared with the "
+     "file without that line. Seven delimiter classes and three comment sets. Bounded (line <= N bytes).",
+     PARSER_NOTE, "CBMC bounded symbolic execution of read_file against a grammar-derived reference recogniser "
+     "(contract asserted by wrapper; bounded stand-in, not dfcc)", "6 C02")
+prop("C04", "model_checking",
+     "read_file() on scenarios whose line under test is EVERY byte string up to N bytes (incl. NUL, 8-bit, "
+     "missing newline), with all CBMC pointer/bounds/overflow checks, plus the contract 'documented code, file "
+     "closed, object well-formed'; typed getters on absent/arbitrary values are proved unbounded (T1) by their "
+     "contracts; merge, writer and bracket helpers by their own jobs.",
+     PARSER_NOTE, "CBMC memory-safety checks on the real parser over fully symbolic lines (bounded) + T1 getter "
+     "contracts", "6 C04")
+prop("C05", "model_checking",
+     "Differential contract on read_file(): for every line (<= N bytes) whose first non-blank byte is a comment "
+     "character - any bytes after it - inserted after each catalogue context and before a follow-up entry, the "
+     "result code, sections, keys and values equal those of the same file without the line.",
+     PARSER_NOTE, "CBMC bounded symbolic execution, two runs of the real parser compared (with / without the "
+     "comment line)", "6 C05")
+prop("C13", "model_checking",
+     "Scenarios with one malformed line (no closing bracket, text after bracket, empty name, key + text without "
+     "delimiter under a non-blank set) with symbolic bytes after each catalogue context: the specific code, "
+     "last-scanned line number = index of that line, file name = the path. read_file_with_callback is proved "
+     "(T1, dfcc) to free the object once and clear the out-pointer on any parser failure; econf_errString is "
+     "proved against the documented table.",
+     PARSER_NOTE, "CBMC bounded scenarios on read_file + T1 contracts on read_file_with_callback / "
+     "econf_errString", "6 C13")
+prop("C17", "model_checking",
+     "The K_ENTRY / K_CONT scenario contracts also pin line_number, comment_before_key, comment_after_value and "
+     "path of each entry to the reference recogniser's expectation; econf_getExtValue/getPath/get_absolute_path "
+     "have their own contracts.",
+     PARSER_NOTE, "CBMC bounded scenarios on read_file + contracts on the extended getter", "6 C17")
